@@ -20,11 +20,16 @@ def reset():
 
 
 def set_size(size: int):
-    for i, cached in enumerate(_cached):
+    for cached in list(_cached):
         wrapped = cached.__wrapped__
+        module = sys.modules[wrapped.__module__]
+        if getattr(module, wrapped.__name__) is not cached:
+            continue  # already replaced, only kept in order to be reset
         resized = lru_cache(size)(wrapped)
-        _cached[i] = resized  # otherwise reset() keeps clearing the replaced cache
-        setattr(sys.modules[wrapped.__module__], wrapped.__name__, resized)
+        # Replaced cache is kept, because it's still used by the modules which
+        # have imported the cached function by its name, so it must still be reset
+        _cached.append(resized)
+        setattr(module, wrapped.__name__, resized)
 
 
 K = TypeVar("K")
